@@ -419,6 +419,11 @@ func (zp *ZoneParser) Next() (RR, bool) {
 					}
 
 					neworigin = name
+
+					// Nothing but a comment may follow the origin.
+					if err := slurpRemainder(zp.c); err != nil {
+						return zp.setParseError(err.err, err.lex)
+					}
 				}
 			case zNewline, zEOF:
 				// Ok
